@@ -401,7 +401,12 @@ def prove_in_callers(prog, b):
         if b.kind == "Closure":
             op_ = re.sub(r"(::\{closure#\d+\})+$", "", b.path)
             target = next((x for x in prog.bodies.values() if x.path == op_), None)
-        if target is None or not known or target.path in known or b.crate not in ("stun_rs", "stun_agent"):
+        # a closure of a known function that is handed to an iterator adaptor (`for_each`, `fold`, ..): its context is that
+        # function, explored with the adaptor run as the loop it abbreviates
+        own_closure = b.kind == "Closure" and target is not None and target.path in (known or ()) and target.kind in ("Fn", "AssocFn")
+        if own_closure and b.crate in ("stun_rs", "stun_agent") and not any(s_.kind not in PROVABLE_KINDS for s_ in sites):
+            res = _prove_closure_in_parent(prog, b, target)
+        elif target is None or not known or target.path in known or b.crate not in ("stun_rs", "stun_agent"):
             res = (False, 0, "not a new helper")
         elif target.is_public or target.kind not in ("Fn", "AssocFn"):
             res = (False, 0, "public or not a plain function: callers unknown")
@@ -458,6 +463,39 @@ def prove_in_callers(prog, b):
         res = (False, 0, "prover error %r" % (e,))
     _ctx_proofs[k] = res
     return res
+
+
+def _prove_closure_in_parent(prog, b, parent):
+    from .. import client as C
+    from .. import linproof as LP
+    import time as _t
+    if len(parent.blocks) > 120:
+        return (False, 0, "parent too large")
+    step = [r"\{closure"] + _safe_helpers(prog) + ["^" + re.escape(parent.path) + "$"]
+    paths, info = C.explore_fn(prog, parent.path, "x", step, concrete_iters=True, log_asserts=True, memo_shared=True, max_paths=400,
+                               adaptor_loops=True)
+    if info["bounded"] or not paths:
+        return (False, 0, "exploration of %s incomplete" % parent.path)
+    t_end = _t.time() + 30
+    n = 0
+    failed = []
+    for pa in paths:
+        if _t.time() > t_end:
+            failed.append("time budget exceeded")
+            break
+        if any("widened" in repr(e) for e in pa.log if e[0] in ("assert", "call") and LP.origin_of(e) == b.path):
+            failed.append("loop with an unknown bound (widened counter)")
+            break
+        w = LP.Walker(pa, [], contracts=_std_contracts(), upper=_std_upper)
+        w.only = {b.path}
+        w.run()
+        n += w.n_only
+        failed.extend("in %s: %s" % (C.short(parent.path), f) for f in w.failed)
+        if failed:
+            break
+    if not failed and n == 0:
+        failed.append("%s never reaches the closure's sites" % parent.path)
+    return (not failed and n > 0, n, "; ".join(failed[:2]) or "%d linear obligations in the closure's function" % n)
 
 
 def check_sites(ctx, prog, rule, prop, seen, config_label="", exclude_fn=None, only_kinds=None):
